@@ -72,6 +72,22 @@ MUTANTS = [
     dict(id='c04-wrap-not-recorded', prop='C04', rule='R4.5', file=SEQ, old="            self.wrap = m;\n", new="            self.wrap = m.max(1);\n"),
     dict(id='c04-reuse-keeps-wrap', prop='C04', rule='R4.6', file=SEQ, old="                length,\n                wrap: 0,\n", new="                wrap: length % 1 + 1,\n                length,"),
     dict(id='c04-count-with-wrap', prop='C04', rule='R4.7', file=SEQ, old="        let rows = self.data.rows() - self.wrap;\n        let l = self.len();\n\n        for i in 0..rows {\n            let row = &self.data[i];\n            for j in 0..self.data.columns() {\n                let index = j * rows + i;\n                if index < l {\n                    counts", new="        let rows = self.data.rows();\n        let l = self.len();\n\n        for i in 0..rows {\n            let row = &self.data[i];\n            for j in 0..self.data.columns() {\n                let index = j * rows + i;\n                if index < l {\n                    counts"),
+    # ---- C06
+    dict(id='c06-stripe-overread', prop='C06', rule='R6.5', file=AVX2, old="    while i + <Avx2 as Backend>::Lanes::USIZE <= src_stride\n        && 0x1f * src_stride + i + <Avx2 as Backend>::Lanes::USIZE <= length\n    {", new="    while i + <Avx2 as Backend>::Lanes::USIZE <= src_stride {"),
+    dict(id='c06-stripe-guard-weaker', prop='C06', rule='R6.5', file=AVX2, old="&& 0x1f * src_stride + i + <Avx2 as Backend>::Lanes::USIZE <= length", new="&& 0x1e * src_stride + i + <Avx2 as Backend>::Lanes::USIZE <= length"),
+    dict(id='c06-encode-guard', prop='C06', rule='R6.5', file=AVX2, old="        while i + STRIDE <= l {", new="        while i <= l {"),
+    dict(id='c06-encode-sse2-guard', prop='C06', rule='R6.5', file=SSE2F, old="        while i + STRIDE < l {", new="        while i + 8 < l {"),
+    dict(id='c06-encode-assert-removed', prop='C06', rule='R6.5', file=AVX2, old="    let l = seq.len();\n    assert_eq!(seq.len(), dst.len());\n\n    unsafe {\n        // Use raw pointers since we cannot be sure `seq` and `dst` are aligned.\n        let mut i = 0;\n        let mut src_ptr = seq.as_ptr();\n        let mut dst_ptr = dst.as_mut_ptr();\n\n        // Store a flag to know if invalid letters have been encountered.\n        let mut error = _mm256_setzero_si256();", new="    let l = seq.len();\n\n    unsafe {\n        // Use raw pointers since we cannot be sure `seq` and `dst` are aligned.\n        let mut i = 0;\n        let mut src_ptr = seq.as_ptr();\n        let mut dst_ptr = dst.as_mut_ptr();\n\n        // Store a flag to know if invalid letters have been encountered.\n        let mut error = _mm256_setzero_si256();"),
+    dict(id='c06-loadu-to-load', prop='C06', rule='R6.4', file=AVX2, old="let letters = _mm256_loadu_si256(src_ptr as *const __m256i);", new="let letters = _mm256_load_si256(src_ptr as *const __m256i);"),
+    dict(id='c06-row-offset-misaligned', prop='C06', rule='R6.4', file=AVX2, old="        _mm256_stream_ps(rowptr.add(0x08), r2);", new="        _mm256_stream_ps(rowptr.add(0x04), r2);", occ=0),
+    dict(id='c06-spill-aligned-store', prop='C06', rule='R6.4', file=AVX2, old="_mm256_storeu_ps(x.as_mut_ptr() as *mut _, m);", new="_mm256_store_ps(x.as_mut_ptr() as *mut _, m);"),
+    dict(id='c06-wrap-check-removed', prop='C06', rule='R6.2', file=AVX2, old="        if seq.wrap() < pssm.rows() - 1 {\n            panic!(\n                \"not enough wrapping rows for motif of length {}\",\n                pssm.rows()\n            );\n        }\n\n        if seq.len() < pssm.rows() || rows.is_empty() {\n            scores.resize(0, 0);\n            return;\n        }\n\n        scores.resize(rows.len(), (seq.len() + 1).saturating_sub(pssm.rows()));\n        #[cfg(any(target_arch = \"x86\", target_arch = \"x86_64\"))]\n        unsafe {\n            score_u8_avx2_shuffle", new="        if seq.len() < pssm.rows() || rows.is_empty() {\n            scores.resize(0, 0);\n            return;\n        }\n\n        scores.resize(rows.len(), (seq.len() + 1).saturating_sub(pssm.rows()));\n        #[cfg(any(target_arch = \"x86\", target_arch = \"x86_64\"))]\n        unsafe {\n            score_u8_avx2_shuffle"),
+    dict(id='c06-wrap-check-weaker', prop='C06', rule='R6.2', file=SSE2F, old="        if seq.wrap() < pssm.rows() - 1 {", new="        if seq.wrap() + 2 < pssm.rows() {"),
+    dict(id='c06-second-caller', prop='C06', rule='R6.2', file=AVX2, old="    #[allow(unused)]\n    pub fn argmax_f32(", new="    #[allow(unused)]\n    pub fn score_u8_fast<A: Alphabet>(pssm: &DenseMatrix<u8, A::K>, seq: &StripedSequence<A, <Avx2 as Backend>::Lanes>, rows: Range<usize>, scores: &mut StripedScores<u8, <Avx2 as Backend>::Lanes>) {\n        scores.resize(rows.len(), seq.len());\n        unsafe { score_u8_avx2_shuffle(pssm, seq, rows, scores) }\n    }\n\n    #[allow(unused)]\n    pub fn argmax_f32("),
+    dict(id='c06-resize-missing', prop='C06', rule='R6.2', file=AVX2, old="        scores.resize(rows.len(), (seq.len() + 1).saturating_sub(pssm.rows()));\n        #[cfg(any(target_arch = \"x86\", target_arch = \"x86_64\"))]\n        unsafe {\n            score_f32_avx2_gather", new="        scores.resize(rows.len().min(1), (seq.len() + 1).saturating_sub(pssm.rows()));\n        #[cfg(any(target_arch = \"x86\", target_arch = \"x86_64\"))]\n        unsafe {\n            score_f32_avx2_gather"),
+    dict(id='c06-row-overrun', prop='C06', rule='R6.3', file=AVX2, old="                let r4 = _mm256_load_ps(dataptr.add(0x18) as *const _);", new="                let r4 = _mm256_load_ps(dataptr.add(0x20) as *const _);"),
+    dict(id='c06-uninit-new-caller', prop='C06', rule='R6.1', file=DENSE, old="    pub fn with_capacity(rows: usize, capacity: usize) -> Self {\n        let data = Vec::with_capacity(capacity);\n        let mut matrix = Self { data, rows: 0 };\n        matrix.resize(rows);\n        matrix", new="    pub fn with_capacity(rows: usize, capacity: usize) -> Self {\n        let mut matrix = unsafe { Self::uninitialized(rows) };\n        matrix.data.reserve(capacity.saturating_sub(rows));\n        matrix"),
+    dict(id='c06-encode-raw-returns-on-err', prop='C06', rule='R6.6', file=PLI, old="            Ok(_) => Ok(buffer),\n            Err(e) => Err(e),", new="            Ok(_) => Ok(buffer),\n            Err(e) if s.is_empty() => Err(e),\n            Err(_) => Ok(buffer),"),
     # ---- C07
     dict(id='c07-max-zero-init', prop='C07', rule='R7.1', file=AVX2, old="let mut m3 = _mm256_set1_ps(f32::NEG_INFINITY);", new="let mut m3 = _mm256_setzero_ps();"),
     dict(id='c07-max-epi8', prop='C07', rule='R7.1', file=AVX2, old="m = _mm256_max_epu8(m, r);", new="m = _mm256_max_epi8(m, r);"),
@@ -208,6 +224,9 @@ MUTANTS = [
 ]
 
 BENIGN = [
+    dict(id='c06-sse2-guard-le', prop='C06', file=SSE2F, old="        while i + STRIDE < l {", new="        while i + STRIDE <= l {"),
+    dict(id='c06-avx2-guard-lt', prop='C06', file=AVX2, old="        while i + STRIDE <= l {", new="        while i + STRIDE < l {"),
+    dict(id='c06-wrap-check-form', prop='C06', file=AVX2, old="        if seq.wrap() < pssm.rows() - 1 {", new="        if seq.wrap() + 1 < pssm.rows() {", occ=2),
     dict(id='c04-guard-form', prop='C04', file=SEQ, old="        if m > self.wrap {", new="        if m >= self.wrap + 1 {"),
     dict(id='c07-argmax-strict-generic', prop='C07', file=PLI, old="if row[j] >= best_score {", new="if row[j] > best_score {"),
     dict(id='c07-cmp-lt', prop='C07', file=AVX2, old="let c3 = _mm256_cmp_ps(s3, r3, _CMP_LE_OS);", new="let c3 = _mm256_cmp_ps(s3, r3, _CMP_LT_OS);"),
